@@ -48,8 +48,9 @@ def _fold_bin(op, a, b):
 
 
 class Extractor:
-    def __init__(self, prog, inline=(), max_depth=4, max_nodes=4000):
+    def __init__(self, prog, inline=(), max_depth=4, max_nodes=4000, effects=False):
         self.prog = prog
+        self.effects = effects      # model `&mut` arguments of calls as uninterpreted functional updates
         self.inline = set(inline)
         self.max_depth = max_depth
         self.max_nodes = max_nodes
@@ -78,6 +79,11 @@ class Extractor:
 
     def read(self, body, env, pl):
         l, proj = pl
+        hops = 0
+        while proj and proj[0] == "*" and ("ref", l) in env and hops < 8:
+            tl, tproj = env[("ref", l)]
+            l, proj = tl, list(tproj) + list(proj[1:])
+            hops += 1
         if l not in env:
             raise Unsupported("read of unassigned local _%d in %s" % (l, body.key))
         t = env[l]
@@ -103,19 +109,40 @@ class Extractor:
         return t
 
     def write(self, body, env, pl, val, bb):
-        """Assignment to `local.field` (one field level, derefs ignored): functional update of the local's term."""
+        """Assignment to `local.f.g...` (derefs of tracked `&mut` locals are followed, other derefs ignored):
+        functional update of the local's term."""
         l, proj = pl
+        hops = 0
+        while proj and proj[0] == "*" and ("ref", l) in env and hops < 8:
+            tl, tproj = env[("ref", l)]
+            l, proj = tl, list(tproj) + list(proj[1:])
+            hops += 1
         fl = [e for e in proj if e != "*"]
-        if len(fl) != 1 or not (isinstance(fl[0], list) and fl[0][0] == "f") or l not in env:
+        if any(not (isinstance(e, list) and e[0] == "f") for e in fl) or l not in env:
             raise Unsupported("write to projected place in %s bb%d" % (body.key, bb))
-        idx, name = fl[0][1], fl[0][3]
-        base = env[l]
+        env[l] = self._update(env[l], [(e[1], e[3]) for e in fl], val)
+
+    def _update(self, base, path, val):
+        if not path:
+            return val
+        (idx, name), rest = path[0], path[1:]
+        if rest:
+            # current value of the field, then update inside it
+            if base[0] == "agg" and idx < len(base[2]):
+                cur = base[2][idx]
+            elif base[0] == "pair" and idx in (0, 1):
+                cur = base[1 + idx]
+            else:
+                cur = base
+                while cur[0] == "with" and cur[2] != name:
+                    cur = cur[1]
+                cur = cur[3] if cur[0] == "with" else ("field", base if base[0] != "with" else _with_root(base), name)
+            val = self._update(cur, rest, val)
         if base[0] == "agg" and idx < len(base[2]):
-            env[l] = ("agg", base[1], base[2][:idx] + (val,) + base[2][idx + 1:])
-        elif base[0] == "pair" and idx in (0, 1):
-            env[l] = ("pair", val, base[2]) if idx == 0 else ("pair", base[1], val)
-        else:
-            env[l] = ("with", base, name, val)
+            return ("agg", base[1], base[2][:idx] + (val,) + base[2][idx + 1:])
+        if base[0] == "pair" and idx in (0, 1):
+            return ("pair", val, base[2]) if idx == 0 else ("pair", base[1], val)
+        return ("with", base, name, val)
 
     def operand(self, body, env, op):
         if op[0] in ("cp", "mv"):
@@ -172,6 +199,8 @@ class Extractor:
         if len(args) != body.argc:
             raise Unsupported("arity mismatch for %s" % body.key)
         env = {i + 1: a for i, a in enumerate(args)}
+        if depth == 0:
+            self._params = tuple(args)
         return self._block(body, 0, env, (), depth)
 
     def _block(self, body, bb, env, path, depth):
@@ -190,13 +219,27 @@ class Extractor:
             if pl[1]:
                 self.write(body, env, pl, self.rvalue(body, env, rv), bb)
                 continue
+            env.pop(("ref", pl[0]), None)
+            if self.effects and rv[0] == "ref" and str(rv[1]).startswith("mut"):
+                # remember what the reference points at (resolved through references it is itself derived from)
+                tl, tproj = rv[2][0], list(rv[2][1])
+                hops = 0
+                while tproj and tproj[0] == "*" and ("ref", tl) in env and hops < 8:
+                    tl, tproj = env[("ref", tl)][0], list(env[("ref", tl)][1]) + tproj[1:]
+                    hops += 1
+                env[("ref", pl[0])] = (tl, tuple(tproj))
+            elif self.effects and rv[0] == "use" and rv[1][0] in ("cp", "mv") and not rv[1][1][1] and ("ref", rv[1][1][0]) in env:
+                env[("ref", pl[0])] = env[("ref", rv[1][1][0])]
             env[pl[0]] = self.rvalue(body, env, rv)
         t = blk["t"]
         k = t[0]
         if k == "return":
-            if 0 not in env:
-                return ("unit",)
-            return env[0]
+            ret = env.get(0, ("unit",))
+            if self.effects and depth == 0:
+                changed = tuple((p, env[i + 1]) for i, p in enumerate(self._params) if env.get(i + 1) != p)
+                if changed:
+                    return ("state", ret, changed)
+            return ret
         if k == "goto":
             return self._block(body, t[1], env, path, depth)
         if k in ("false_edge", "false_unwind"):
@@ -226,6 +269,32 @@ class Extractor:
             if c is None:
                 raise Unsupported("indirect call in %s" % body.key)
             key = F.callee_key(t)
+            muts = []
+            if self.effects:
+                for i, a in enumerate(F.call_args(t)):
+                    if a[0] in ("cp", "mv") and not a[1][1] and ("ref", a[1][0]) in env:
+                        muts.append((i, env[("ref", a[1][0])]))
+            if muts:
+                # current pointee values stand for the `&mut` arguments
+                args = tuple(self.read(body, env, [m[1][0], list(m[1][1])]) if any(m[0] == i for m in muts) and False else self.operand(body, env, a)
+                             for i, a in enumerate(F.call_args(t)))
+                args = list(args)
+                for i, (tl, tproj) in muts:
+                    args[i] = self.read(body, env, [tl, list(tproj)])
+                args = tuple(args)
+                d = F.call_dest(t)
+                if d[1]:
+                    raise Unsupported("call result into projected place in %s" % body.key)
+                rty = body.local_tystr(d[0])
+                if rty.startswith("&mut") or "&mut " in rty:
+                    raise Unsupported("call returning a mutable reference (%s) in %s" % (key, body.key))
+                for i, (tl, tproj) in muts:
+                    self.write(body, env, [tl, list(tproj)], ("upd", key, i, args), bb)
+                env.pop(("ref", d[0]), None)
+                env[d[0]] = ("call", key, args)
+                if t[4] is None:
+                    return ("never",)
+                return self._block(body, t[4], env, path, depth)
             args = tuple(self.operand(body, env, a) for a in F.call_args(t))
             if key in self.inline and key in self.prog.bodies:
                 self.inlined.add(key)
@@ -240,6 +309,24 @@ class Extractor:
                 return ("never",)
             return self._block(body, t[4], env, path, depth)
         raise Unsupported("terminator %s in %s" % (k, body.key))
+
+
+def _with_root(t):
+    while t[0] == "with":
+        t = t[1]
+    return t
+
+
+def with_fields(t):
+    """('with' chain) -> (root, {field: value}) with later writes overriding earlier ones."""
+    out = {}
+    chain = []
+    while t[0] == "with":
+        chain.append((t[2], t[3]))
+        t = t[1]
+    for n, v in reversed(chain):
+        out[n] = v
+    return t, out
 
 
 def _is_boolish(t):
@@ -262,8 +349,8 @@ def params_of(body):
     return tuple(("param", body.local_name(i) or "_%d" % i) for i in range(1, body.argc + 1))
 
 
-def extract(prog, body, args=None, inline=()):
-    ex = Extractor(prog, inline)
+def extract(prog, body, args=None, inline=(), effects=False):
+    ex = Extractor(prog, inline, effects=effects)
     t = ex.run(body, tuple(args) if args is not None else params_of(body))
     return t, ex
 
@@ -357,6 +444,15 @@ def lin(t):
             go(x[2], s)
             go(x[3], s if x[1].startswith("Add") else -s)
             return
+        if k == "bin" and x[1] in ("Mul", "MulUnchecked") and (x[2][0] == "const" or x[3][0] == "const"):
+            c, y = (x[2][1], x[3]) if x[2][0] == "const" else (x[3][1], x[2])
+            go(y, s * c)
+            return
+        if k == "bin" and x[1] == "Shl" and x[3][0] == "const" and 0 <= x[3][1] < 32:
+            go(x[2], s * (1 << x[3][1]))
+            return
+        if k == "bin" and x[1] == "Div" and x[3][0] == "const":
+            x = ("divc", lin(x[2]), x[3][1])      # canonical atom: numerator as a linear form
         co[x] = co.get(x, 0) + s
 
     go(t, 1)
@@ -408,6 +504,15 @@ def term_str(t, depth=0):
         return "if %s {%s} else {%s}" % (term_str(t[1]), term_str(t[2]), term_str(t[3]))
     if k == "switch":
         return "match %s {%s, _ => %s}" % (term_str(t[1]), ", ".join("%s => %s" % (v, term_str(x)) for v, x in t[2]), term_str(t[3]))
+    if k == "divc":
+        return "(%s)/%d" % (lin_str(t[1]), t[2])
+    if k == "upd":
+        return "%s!(%s)" % (t[1].rsplit("::", 1)[-1], ", ".join(term_str(a) for a in t[3]))
+    if k == "with":
+        r, fs = with_fields(t)
+        return "%s{%s}" % (term_str(r), ", ".join("%s: %s" % (n, term_str(v)) for n, v in fs.items()))
+    if k == "state":
+        return "%s; %s" % (term_str(t[1]), "; ".join("%s := %s" % (term_str(p), term_str(v)) for p, v in t[2]))
     if k == "agg":
         return "%s{%s}" % (t[1].rsplit("::", 2)[-1] if "::" in t[1] else t[1], ", ".join(term_str(x) for x in t[2]))
     if k == "pair":
